@@ -28,7 +28,11 @@ NAMES = ('x', 'y', 'default')
 BODIES = (None, '@', '!', 'role:r')
 QUERIES = ('x', 'y', 'default', 'zz')
 CONFIGS = [('unset', None), ('ctor-name', 'y'), ('ctor-name', 'nope'),
-           ('ctor-name', 'default'), ('ctor-check', '@'), ('ctor-check', '!'),
+           ('ctor-name', 'default'),
+           # an EMPTY constructor argument is "none specified": the option
+           # (stock value: the name 'default') stays what is configured
+           ('ctor-empty', ''),
+           ('ctor-check', '@'), ('ctor-check', '!'),
            ('ctor-check', 'role:r'), ('option', 'y'), ('option', 'nope'),
            ('option', ''), ('option', None),
            # the service sets its option DEFAULTS in one call, policy file
@@ -80,7 +84,7 @@ def ref_decide(ruleset, cfg, query, roles):
     if query in ruleset:
         return ref_body(ruleset[query], roles)   # own definition, always
     how, val = cfg
-    if how == 'unset':
+    if how in ('unset', 'ctor-empty'):
         dflt = ('name', 'default')
     elif how == 'ctor-check':
         dflt = ('check', val)
@@ -112,7 +116,7 @@ def build(P, parse_rule, ruleset, cfg, route, w):
     how, val = cfg
     kw = {}
     overrides = {}
-    if how == 'ctor-name':
+    if how in ('ctor-name', 'ctor-empty'):
         kw['default_rule'] = val
     elif how == 'ctor-check':
         kw['default_rule'] = parse_rule(val)
